@@ -79,8 +79,36 @@ class LazyRecorder(RF.AbstractRecorder):
     index_to = property(lambda self: self._cat(self.batches_i, 1))
 
 
+class CascadeRecorder(ProbeRecorder):
+    """A user-written recorder that works while it is being called: it looks the reported indices up in the
+    chunk bookkeeping at once (to fetch a second channel for the loop limits), and it forwards every batch of
+    loops to a second, independent detector (cascaded counting).  The callbacks are the only points at which
+    user code runs inside process(); whatever runs there may not disturb the detector that called."""
+
+    def __init__(self):
+        super().__init__()
+        self.lookups = []
+        self.sinks = [RF.FourPointDetector(recorder=RF.LoopValueRecorder()), RF.ThreePointDetector(recorder=RF.LoopValueRecorder())]
+        self.n_batches = 0
+
+    def record_values(self, values_from, values_to):
+        super().record_values(values_from, values_to)
+        a, b = np.asarray(values_from, dtype=np.float64).reshape(-1), np.asarray(values_to, dtype=np.float64).reshape(-1)
+        if len(a) and len(a) == len(b):
+            self.n_batches += 1
+            block = np.concatenate(((a + b) / 2.0, [float(self.n_batches % 5), -3.0, 4.0, -1.0, 2.5]))
+            self.sinks[self.n_batches % 2].process(block)
+
+    def record_index(self, index_from, index_to):
+        super().record_index(index_from, index_to)
+        g = [int(x) for x in index_from] + [int(x) for x in index_to]
+        if g:
+            cn, cl = self.chunk_local_index(np.asarray(g, dtype=np.int64))
+            self.lookups += [[gi, int(k), int(j)] for gi, k, j in zip(g, np.atleast_1d(cn), np.atleast_1d(cl))]
+
+
 DETS = {"tp": RF.ThreePointDetector, "fp": RF.FourPointDetector, "fkm": RF.FKMDetector}
-RECS = {"full": RF.FullRecorder, "value": RF.LoopValueRecorder, "probe": ProbeRecorder, "lazy": LazyRecorder}
+RECS = {"full": RF.FullRecorder, "value": RF.LoopValueRecorder, "probe": ProbeRecorder, "lazy": LazyRecorder, "cascade": CascadeRecorder}
 
 
 # ------------------------------------------------------------------ source
@@ -370,10 +398,12 @@ def observe(d, det, rec):
         if det != "fkm":
             o["ridx"] = [float(x) for x in d.residual_index]
             o["chunks"] = [int(x) for x in r.chunks]
-            if rec in ("full", "probe", "lazy"):
+            if rec in ("full", "probe", "lazy", "cascade"):
                 o["ifrom"] = [float(x) for x in r.index_from]
                 o["ito"] = [float(x) for x in r.index_to]
-        if rec == "probe":
+        if rec == "cascade" and det != "fkm":
+            o["lookups"] = [list(x) for x in r.lookups]
+        if rec in ("probe", "cascade"):
             # every report must be self-consistent: as many 'to' as 'from'; indices for exactly the reported loops
             for kind_, n1, n2 in r.calls:
                 if n1 != n2:
@@ -433,7 +463,7 @@ def generate(prop, rng, tier):
     reps = []
     for _ in range(n_rep):
         det = rng.choice(["tp", "fp", "fkm"])
-        reps.append({"det": det, "rec": rng.choice(["full", "full", "value", "probe", "lazy"]),
+        reps.append({"det": det, "rec": rng.choice(["full", "full", "value", "probe", "lazy", "cascade"]),
                      "cuts": gen_cuts(rng, sig),
                      "container": rng.choice(["ndarray", "ndarray", "ndarray", "list", "series", "strided", "readonly", "int", "int", "f32", "mixed"])})
     order = []
@@ -585,7 +615,7 @@ def _execute(prop, trace):
         if last or st["k"] == 1:
             # the user may look at the collective at any time (also early): it must agree with the arrays
             try:
-                bad = collective_consistent(st["d"], o, rec) if rec not in ("probe", "lazy") and (det != "fkm" or rec == "value") else None
+                bad = collective_consistent(st["d"], o, rec) if rec not in ("probe", "lazy", "cascade") and (det != "fkm" or rec == "value") else None
             except RealCodeError as e:
                 out.violate("exception", "%s/%s" % (det, e.where), {"replica": r, "consumed": b, "type": e.exc_type, "msg": e.msg})
                 st["dead"] = True
@@ -649,8 +679,8 @@ def check_c01(out, st, rp, r, prefix, o, flush):
         out.violate("exception", "%s/%s" % (det, e.where), {"one_piece_prefix": len(prefix), "type": e.exc_type, "msg": e.msg})
         st["dead"] = True
         return
-    a = {k: v for k, v in o.items() if k != "chunks"}
-    b_ = {k: v for k, v in o_ref.items() if k != "chunks"}
+    a = {k: v for k, v in o.items() if k not in ("chunks", "lookups")}
+    b_ = {k: v for k, v in o_ref.items() if k not in ("chunks", "lookups")}
     if a != b_:
         k = first_diff(a, b_)
         out.violate("I1-prefix-refinement", det,
@@ -670,7 +700,7 @@ def check_c01(out, st, rp, r, prefix, o, flush):
     for L in lens:
         offs.append(offs[-1] + L)
     pairs = [("ridx", "res")]
-    if rec in ("full", "probe", "lazy"):
+    if rec in ("full", "probe", "lazy", "cascade"):
         pairs += [("ifrom", "from"), ("ito", "to")]
     for ik, vk in pairs:
         gi = o[ik]
@@ -693,6 +723,15 @@ def check_c01(out, st, rp, r, prefix, o, flush):
                              "chunks": lens})
                 st["dead"] = True
                 return
+    # look-ups made from inside the callbacks (the chunk that holds the index is still being processed then)
+    for g, k, j in o.get("lookups", []):
+        if not (0 <= k < len(lens) and 0 <= j < lens[k] and offs[k] + j == g):
+            out.violate("I2-chunk-bookkeeping", det + ":lookup-inside-callback",
+                        {"replica": r, "global_index": g, "chunk": k, "local": j, "chunks": lens})
+            st["dead"] = True
+            return
+    if o.get("lookups"):
+        out.count("probe:lookups_inside_callback", len(o["lookups"]))
     out.count("I2-indices-mapped", sum(len(o[ik]) for ik, _ in pairs))
 
 
@@ -712,7 +751,7 @@ def check_c02_accounting(out, st, rp, r, prefix, o):
             st["dead"] = True
         return
     tp = ref.turning_points(prefix)
-    if rec in ("full", "probe", "lazy"):
+    if rec in ("full", "probe", "lazy", "cascade"):
         want = Counter((float(i), v) for i, v in tp)
         got = Counter(zip(o["ifrom"], o["from"])) + Counter(zip(o["ito"], o["to"])) + Counter(zip(o["ridx"], o["res"]))
         for (i, v) in got:
